@@ -65,6 +65,7 @@ func c13Plugin(c c13Case, cur *[]system.IP) *Prefix {
 		ValidLifetime:     time.Duration(c.Stanza.ValidNS),
 		PreferredLifetime: time.Duration(c.Stanza.PrefNS),
 		TimeNow:           func() time.Time { return time.Unix(1700000000, 0) },
+		Epoch:             time.Unix(1600000000, 0), // as the parser builds it: every prefix plugin carries the daemon's start time
 		Addrs: func() ([]system.IP, error) {
 			if c.SrcErr {
 				return nil, errVerifSource
